@@ -60,6 +60,14 @@ int main()
     if (!vp::readLine(line))
         return 2;
     auto hdr = vp::tokens(line);
+    // optional third token `ev=0`: NO callback is registered on the heap (onAfterInsert / onBeforeRemove never called); the harness
+    // then numbers the elements itself (return value of insert; unique data for insert(vector)) and every `ev=` list must be empty
+    bool registered = true;
+    if (hdr.size() == 3 && (hdr[2] == "ev=0" || hdr[2] == "ev=1"))
+    {
+        registered = hdr[2] == "ev=1";
+        hdr.pop_back();
+    }
     Cmp cmp;
     if (hdr.size() == 2 && hdr[0] == "heap" && hdr[1] == "cmp=less")
         cmp = [](long a, long b) { return a / 1024 < b / 1024; };
@@ -77,8 +85,15 @@ int main()
         return 2;
     }
     H heap(cmp);
-    heap.onAfterInsert(afterInsert, nullptr);
-    heap.onBeforeRemove(beforeRemove, nullptr);
+    if (registered)
+    {
+        heap.onAfterInsert(afterInsert, nullptr);
+        heap.onBeforeRemove(beforeRemove, nullptr);
+    }
+    auto adopt = [&](H::Element *e) {   // ev=0: what afterInsert would have done, minus the event
+        idOf[e] = handles.size();
+        handles.push_back(e);
+    };
 
     auto evs = [&]() {
         std::string s;
@@ -109,6 +124,8 @@ int main()
         if (op == "ins" && t.size() == 2 && vp::parseInt(t[1]))
         {
             H::Element *e = heap.insert(*vp::parseInt(t[1]));
+            if (!registered)
+                adopt(e);
             fin("h=" + std::to_string(idOf.at(e)) + " ev=" + evs());
         }
         else if (op == "insl")
@@ -126,6 +143,14 @@ int main()
                 }
             if (!ok) { std::cout << "bad-op\n"; continue; }
             heap.insert(ks);
+            if (!registered)
+                for (long k : ks)   // list order = creation order; data values are unique
+                    for (H::Element *e : heap.vector_)
+                        if (e->data == k && !idOf.count(e))
+                        {
+                            adopt(e);
+                            break;
+                        }
             fin("ok ev=" + evs());
         }
         else if (op == "rm" && t.size() == 2 && vp::parseNat(t[1]))
